@@ -62,6 +62,14 @@ func main() {
 		runKstale(r, n)
 	case "kalias":
 		runKalias(r, n)
+	case "kmapbig":
+		runKmapbig(r, n)
+	case "kltype":
+		runKltype(r, n)
+	case "kearly":
+		runKearly(r, n)
+	case "k2srv":
+		runK2srv(r, n)
 	case "kmux":
 		runKmux(r, n)
 	case "kcs":
